@@ -8,6 +8,7 @@ import (
 	"golang.org/x/tools/go/ssa"
 
 	"verif/checker/internal/core"
+	"verif/checker/internal/load"
 	"verif/checker/internal/ir"
 )
 
@@ -170,6 +171,37 @@ func runC17(c *core.Ctx) {
 	}
 
 	// ---- monoid.From / FromOp
+	// the concrete monoid type is what From builds; its field roles come from the field types (the element of the
+	// type parameter's type, the embedded interface that has Combine), never from unexported names
+	var monoidT *types.Named
+	emptyF, sgF := "", ""
+	if fn := c.W.Func("pure/monoid", "From"); fn != nil {
+		for _, b := range fn.Blocks {
+			for _, in := range b.Instrs {
+				if mi, isMI := in.(*ssa.MakeInterface); isMI {
+					t := mi.X.Type()
+					if pt, isP := t.(*types.Pointer); isP {
+						t = pt.Elem()
+					}
+					if nt, isN := t.(*types.Named); isN {
+						if st, isS := nt.Underlying().(*types.Struct); isS && nt.Obj().Pkg() != nil && load.Logical(nt.Obj().Pkg().Path()) == "pure/monoid" {
+							monoidT = nt.Origin()
+							for i := 0; i < st.NumFields(); i++ {
+								f := st.Field(i)
+								if _, isTP := f.Type().(*types.TypeParam); isTP {
+									emptyF = f.Name()
+								} else if types.IsInterface(f.Type()) {
+									if o, _, _ := types.LookupFieldOrMethod(f.Type(), false, nil, "Combine"); o != nil {
+										sgF = f.Name()
+									}
+								}
+							}
+						}
+					}
+				}
+			}
+		}
+	}
 	for _, ctor := range []string{"From", "FromOp"} {
 		name := "monoid." + ctor
 		fn := c.W.Func("pure/monoid", ctor)
@@ -183,10 +215,10 @@ func runC17(c *core.Ctx) {
 		if ok {
 			var sg, em *ir.Term
 			for _, kv := range t.Args {
-				switch kv.Aux {
-				case "Semigroup":
+				switch {
+				case kv.Aux == sgF && sgF != "":
 					sg = kv.Args[0]
-				case "empty":
+				case kv.Aux == emptyF && emptyF != "":
 					em = kv.Args[0]
 				}
 			}
@@ -217,10 +249,15 @@ func runC17(c *core.Ctx) {
 		// the returned dynamic type must be the type whose Empty/Combine are checked below
 		c.Check(ok, "monoid-literal", name, fn.Pos(), "{Semigroup: combine, empty: empty}", "%s", why)
 	}
-	if fn := c.W.Method("pure/monoid", "monoid", "Empty"); fn != nil {
+	var emptyM *ssa.Function
+	if monoidT != nil {
+		emptyM = methodsOf(c, monoidT)["Empty"]
+	}
+	if emptyM != nil {
+		fn := emptyM
 		if p := singlePath(c, "monoid-empty", "monoid.monoid.Empty", fn); p != nil {
 			t := p.Results[0]
-			ok := t.Op == "field" && t.Aux == "empty" && paramOf(t.Args[0], fn, 0) && len(calls(p)) == 0
+			ok := t.Op == "field" && t.Aux == emptyF && emptyF != "" && paramOf(t.Args[0], fn, 0) && len(calls(p)) == 0
 			c.Check(ok, "monoid-empty", "monoid.monoid.Empty", fn.Pos(), "m.empty", "Empty returns %s, expected the stored element", short(t))
 		}
 	} else {
@@ -228,13 +265,13 @@ func runC17(c *core.Ctx) {
 	}
 	// Combine promoted through the embedded Semigroup
 	if mp := c.W.Pkgs["pure/monoid"]; mp != nil {
-		obj, _ := mp.Types.Scope().Lookup("monoid").(*types.TypeName)
-		if obj == nil {
-			c.Undecided("monoid-combine-promoted", "monoid.monoid.Combine", 0, "type monoid not found")
+		if monoidT == nil {
+			c.Undecided("monoid-combine-promoted", "monoid.monoid.Combine", 0, "the concrete monoid type was not found")
 		} else {
+			obj := monoidT.Obj()
 			o, idx, _ := types.LookupFieldOrMethod(obj.Type(), false, mp.Types, "Combine")
 			st, _ := obj.Type().Underlying().(*types.Struct)
-			ok := o != nil && len(idx) == 2 && st != nil && st.Field(idx[0]).Embedded() && st.Field(idx[0]).Name() == "Semigroup"
+			ok := o != nil && len(idx) == 2 && st != nil && st.Field(idx[0]).Embedded() && st.Field(idx[0]).Name() == sgF
 			c.Check(ok, "monoid-combine-promoted", "monoid.monoid.Combine", obj.Pos(), "promoted from embedded Semigroup", "Combine does not resolve through the embedded Semigroup field (index path %v)", idx)
 		}
 	}
